@@ -21,6 +21,35 @@ CLAIMS = {
    text='assign_to_nearest_center: minimal and exact distance, first minimiser, any centre list; find_cluster_centers: per label present a member of smallest distance; partition_list: piece t is the window [PS(t), PS(t)+L[t]) and the windows cover the list (prefix-sum ghost with induction lemmas), raising exactly when the lengths do not sum to the list length; partition_indices: exactly one (trajectory, frame) pair per index, in order, addressing the same frame - all SMT-discharged for symbolic sizes.',
    note='ClusterResult.partition, estimator.predict and batch reassignment are compositions checked by the bounded driver only; file/mdtraj I/O assumed; metric contract; np.where/np.unique/np.argmin primitive contracts',
    tech=TECH + 'nested-loop invariants, prefix-sum ghost + SMT induction lemmas; bounded run-time contracts for the compositions'),
+ 'C03': dict(level='other', ref='DESIGN.md 4 C03',
+   text='Proved (SMT, symbolic length and lag, both modes incl. the non-linear strided case): the per-trajectory lagged slicing in _transitions_helper yields exactly the pairs (t*s, t*s+lag) inside the trajectory and their number. Bounded: assigns_to_counts against the statement itself (brute-force pair count; square shape; totals; ragged = padded = reordered; additivity) over an exhaustive small scope plus scale cases crossing 8/16-bit count ranges.',
+   note='assigns_to_counts builds object arrays of per-row arrays, outside the executor\'s array model: run-time contract only; scipy coo_matrix duplicate summation trusted',
+   tech=TECH + 'for the slicing helper; run-time contract (bounded stand-in) for the composition'),
+ 'C04': dict(level='other', ref='DESIGN.md 4 C04',
+   text='The statement as a run-time contract on the real builders over the complete product {normalize, transpose, mle} x {ndarray + 7 sparse containers} x {no / scalar / asymmetric-array prior} x {populations on/off} on enumerated and seeded count matrices with 2-4 states. No deductive obligations yet.',
+   note='bounded stand-in only (SciPy container algebra is not modelled); tolerances 1e-8..1e-12; Perron-Frobenius assumed',
+   tech='contract-based: run-time contracts derived from the statement on the real functions (bounded stand-in; deductive obligations for the dense branches planned)'),
+ 'C07': dict(level='other', ref='DESIGN.md 4 C07',
+   text='Lean lemmas: the first-step equations for committors and sink-set MFPTs follow from the point-wise linear system the code builds. Bounded: the statement (pins, range, first-step equations, all-pairs vs single-sink, lag linearity, dense = sparse, frames) as run-time contracts on the real functions over irreducible chains with 3-5 states and all small source/sink sets.',
+   note='that the code builds exactly that system is only checked at run time in this round; linear solvers exact to 1e-8; maximum principle / Kemeny-Snell not proved',
+   tech='Lean 4 lemmas over contract clauses + run-time contracts on the real code (bounded stand-in)'),
+ 'C08': dict(level='other', ref='DESIGN.md 4 C08',
+   text='Lean lemma: net-flux conservation at intermediates from the flux definition, detailed balance and the committor equation. Bounded: flux formula with zero diagonal, net flux = positive part, one direction per pair, conservation, source/sink balance, reactive populations, for dense / csr / lil input.',
+   note='bounded stand-in for the formulae in this round', tech='Lean 4 lemma over contract clauses + run-time contracts on the real code (bounded stand-in)'),
+ 'C11': dict(level='other', ref='DESIGN.md 4 C11',
+   text='The statement as a run-time contract with an independent SCC computation: kept set is a heaviest strongly connected component w.r.t. the threshold, counts preserved / removed, order-preserving bijection, renumbered = in-place, dense = 7 sparse containers (+ duplicate-coordinate COO), container type kept, fitted model reports the mapping; all 3x3 matrices over {0,1,3} (strided) and seeded 4-5 state matrices.',
+   note='bounded stand-in only in this round', tech='contract-based: run-time contract derived from the statement (bounded stand-in)'),
+ 'C12': dict(level='other', ref='DESIGN.md 4 C12',
+   text='Run-time contracts on the pure-Python estimator, the compiled kernel and builders.mle: no internal assertion failure, Prinz self-consistency equations, likelihood >= transpose estimate and >= random reversible competitors with the same support, both implementations agree; enumerated and seeded strongly connected matrices with 2-4 states.',
+   note='global optimality and convergence of the floating-point iteration are not decidable by this technique; bounded stand-in only in this round', tech='contract-based: run-time contracts (bounded stand-in)'),
+ 'C13': dict(level='proof', ref='DESIGN.md 4 C13',
+   text='On the mechanically desugared libdist.pyx: every subscript in bounds (bounds checks are off in the binary), zeroing before accumulation, partial-sum loop invariants giving the three row norms, validation raises DataInvalid exactly on wrong rank / width / buffer type / length, wrappers return the (caller\'s) buffer - SMT-discharged for symbolic shapes; race-freedom of all six prange loops as syntactic DOALL obligations.',
+   note='Cython fused-type dispatch, strided buffer access, thread-private loop scalars, C compiler, OpenMP and the DOALL theorem trusted; element arithmetic mathematical; the bounded sweep over dtype x layout x threads ties the desugared text to the compiled binary',
+   tech=TECH + 'on desugared Cython; ghost partial sums; syntactic race obligations; run-time contracts on the compiled kernels as side evidence'),
+ 'C16': dict(level='other', ref='DESIGN.md 4 C16',
+   text='Proved (SMT on the real MSM.__init__, fit, config): the constructor stores every argument, fit stores builder(trim?(assigns_to_counts(assigns, lag, states, sliding))) and the trim/identity mapping computed from the stored configuration. Bounded: save/load equality, spectrum clauses, implied timescales, n-step propagation.',
+   note='the three pipeline functions are uninterpreted in the proof (what they compute is C03 / C11 / C04); disk formats and eigensolvers trusted; Perron-Frobenius assumed',
+   tech=TECH + 'with opaque-object model for the pipeline; run-time contracts for spectrum and round trip'),
  'C20': dict(level='proof', ref='DESIGN.md 4 C20',
    text='All clauses (gates, exit test = not inside the widened basin with wrap-around, hysteresis recursion for every sequence length and buffer width, zero-buffer = binning, valid basin index; 1-D transition list sound/complete/increasing; 2-D one row per trajectory) are SMT-discharged obligations generated from the current rotamer.py / disorder.py for the three boundary sets the library uses.',
    note='floats as reals; angles avoid exact gate values (the property\'s quantifier); np.digitize/np.where/np.bincount/ra.where/RaggedArray(flat,lengths) primitive contracts trusted; per-row content of the 2-D result only bounded; one listed finding (all-constant 2-D input) excluded by witness class',
